@@ -68,7 +68,8 @@ class C05(Spec):
             "after the handshake, silence inside the status line / headers / body, reset, trickle, garbage (malformed status lines, header values and bodies, binary junk) (one byte per 40 ms), at the first "
             "and at a later hop of a redirect chain, with timeout_seconds = 1. The fetch must end in an error (or, where the bytes "
             "received already form a complete object, that exact object) within hops * 2 * timeout + 0.7 s, and the harness process "
-            "must survive. non-trivial = a fault was injected (cut, stall, reset or trickle).")
+            "must survive. ONE LEVEL UP: an intact post / activity / actor whose author, audience, performer, target or outbox sits behind each kind "
+            "of fault is opened through pub.FetchUserInput: the item is built within the bound, with an error item in that place. non-trivial = a fault was injected (cut, stall, reset or trickle).")
     assumptions = ["PARTIAL: wall-clock is observed, not proved - the model bounds the number of connection attempts (hops_bounded) and "
                    "assumes each blocking step of Go's net/tls returns by its deadline; scheduler latency, kernel socket behaviour and "
                    "TLS record boundaries are outside the model",
@@ -182,7 +183,49 @@ class C05(Spec):
         w.fetch(a)
         w.meta.update({"fault": "stall-hop2", "hops": 2})
         cases.append(w.case())
-        b = Batch("c05", cases, config="[network]\ntimeout_seconds = %d\n" % T, env={"VERIF_SIM_PORT_BASE": str(base), "VERIF_CASE_TIMEOUT": "8"}, timeout=600,
+        # faults one level up: an intact post / activity / actor whose AUTHOR, audience, performer, target or outbox is behind a faulty
+        # server - the item must still be built in time, with an error item in that place (pub.New through pub.FetchUserInput)
+        def item_fault(idx, fault_name, serve_fault):
+            w = netgen.World(base, 128)
+            p = w.url(0, "/item%d" % idx)
+            bad = w.url(1, "/behind-fault%d" % idx)
+            serve_fault(w, bad)
+            shape = idx % 5
+            if shape == 0:
+                doc = {"type": "Note", "id": p, "name": "intact", "content": "x", "attributedTo": bad}
+            elif shape == 1:
+                doc = {"type": "Note", "id": p, "name": "intact", "content": "x", "audience": [bad, bad + "2"], "attributedTo": [bad]}
+            elif shape == 2:
+                doc = {"type": "Announce", "id": p, "actor": bad, "object": {"type": "Note", "id": w.url(0, "/n%d" % idx), "name": "target", "content": "y", "x": 1}}
+            elif shape == 3:
+                doc = {"type": "Like", "id": p, "object": bad}
+            else:
+                doc = {"type": "Person", "id": p, "name": "intact", "preferredUsername": "u", "outbox": bad}
+            w.register_strings(doc)
+            w.serve(p, netgen.ok_json(doc))
+            w.user_input(p.encode())
+            w.meta.update({"fault": "item-" + fault_name, "hops": 2})
+            return w.case()
+        idx = 0
+        for k in (0, 9, 40, len(resp) - 1):
+            for finish, name in ((0, "cut"), (1, "stall"), (2, "reset")):
+                for _ in range(5):
+                    cases.append(item_fault(idx, "%s%d" % (name, k), lambda w, u, k=k, finish=finish: w.serve(u, resp[:k], finish)))
+                    idx += 1
+        for _ in range(5):
+            cases.append(item_fault(idx, "garbage", lambda w, u: w.serve(u, b"\x00\xffHTTP/9 nonsense\r\n\r\n{", 0)))
+            idx += 1
+        for _ in range(5):
+            cases.append(item_fault(idx, "refused", lambda w, u: None))     # nothing is served there: 404 from the simulator
+            idx += 1
+        for mode, name in ((1, "no-handshake"), (2, "closed-at-accept")):
+            for _ in range(5):
+                def sf(w, u, mode=mode):
+                    w.modes[1] = mode
+                    w.serve(u, resp, 0)
+                cases.append(item_fault(idx, name, sf))
+                idx += 1
+        b = Batch("c05", cases, config="[network]\ntimeout_seconds = %d\n" % T, env={"VERIF_SIM_PORT_BASE": str(base), "VERIF_CASE_TIMEOUT": "8", "VERIF_MAX_HANGS": "4"}, timeout=600,
                   correspondence="jtp.Get under faults == Jtp.get on the bytes received")
         b.parallel = False
         # timeout_seconds = 0 is "no timeout" (Go's dialer convention), not "no time": healthy servers still answer
